@@ -137,6 +137,7 @@ def index_wrappers(db, backend):
             rcat = db_cat(T, w["return_type"]) if w["flags"] & WF_has_return else ("void",)
             out.setdefault(f["scoped_name"], []).append({
                 "index": wi, "name": w["name"], "cats": cats, "rcat": rcat, "flags": w["flags"],
+                "pnames": [p["name"] for p in w["parameters"] if not p["flags"] & 2],
                 "fn": f["scoped_name"], "fflags": f["flags"], "claimed": False})
     return out
 
@@ -252,6 +253,10 @@ class Library:
             m = [w for w in cands if w["cats"] == cats]
             if len(m) > 1:
                 m = [w for w in m if w["rcat"] == rcat]
+            if len(m) > 1 and sp.get("pnames") is not None:
+                # overloads of equal category (all string-ish kinds are "atomic string"): the entry's
+                # parameter names say which declared overload it stands for
+                m = [w for w in m if w["pnames"] == sp["pnames"]]
             if len(m) != 1:
                 self.missing.append({"key": sp["key"], "fn": sp["fn"] or sp.get("fn_re"), "want": [cats, rcat],
                                      "have": [[w["cats"], w["rcat"]] for w in cands]})
